@@ -101,6 +101,8 @@ ORDER_CASES = [
     'byte[] ln = [\'a\', \'b\', \'c\', \'d\', \'e\', \'f\', \'g\', \'h\', \'i\']; gi = 1; ln[gi] = (bump_i() + 64) is byte; write(ln); ln[gi] += bump_i() is byte; write(ln); write(gi);',
     'int[] li = [1, 2, 3, 4, 5, 6, 7, 8, 9]; gi = 0; li[gi] = bump_i() * 7; li[gi] += bump_i(); li[gi] = gi + bump_i(); write(li[0]); write(li[1]); write(li[2]); write(li[3]); gi = 5; GA[gi - 5] = bump_i(); write(GA[0]); write(GA[1]);',
     'bool[] lo = [false, false, false, false, false, false, false, false, false, false]; gi = 2; lo[gi] = bump_i() == 1; gb = 3; lo[gb] = bump_b() == 1; for (int q = 0; q < 10; q += 1) { write(lo[q] is int); } string[] ls2 = ["a", "b", "c", "d", "e", "f", "g", "h"]; gi = 1; ls2[gi] = pick_s(bump_i()); write(ls2[1]); write(ls2[2]);',
+    # computed left operand, right operand an element at a constant / variable index of a local, parameter or global array
+    'int[] lv = [4, 5, 6]; int kq = 2; write((gi * 3) + lv[0]); write((gi + 1) * lv[1]); write(lv[1] < lv[0]); write((gi - 9) + lv[kq]); write((gb + 1) - GA[0]); write(first_of(lv, gi * 2)); write((gi * 2) - lv[kq - 2] * (gi + lv[1]));',
     # a computed string (an element of a string array, a call result) indexed by an expression that itself indexes strings / bool arrays
     'string[] al = ["abcdefgh", "ABCDEFGH"]; string word = "bad"; bool[] fl = [false, true, true]; int k = 1; for (int j = 0; j < 3; j += 1) { write(al[k][word[j] - \'a\']); write(al[j % 2][(fl[j] is int) + j]); } write(GSS[1][GSS[0].length]); write(pick_s(1)[word.length - 1]); write(pick_s(0)[(fl[1] is int) * 2]); write(al[fl[1] is int][word[2] - word[1] + 2]);',
     # computed left operand (lives in a register), right operand is the .length of something that needs registers
@@ -112,6 +114,7 @@ ORDER_HELPERS = '''int two(int x, int y) { return x * 10 + y; }
 int twob(byte x, int y) { return x * 10 + y; }
 int zero_k(int k) { return 0; }
 int lenof(string s) { return s.length; }
+int first_of(const int[] p, int x) { return (x + 1) * p[0] + (x - p[1]); }
 '''
 
 
